@@ -54,10 +54,19 @@ def build_pools(rng):
     # Instant
     base = rng.choice([0, rng.randint(gen.INST_MIN_NS + 10, gen.INST_MAX_NS - 10)])
     items = []
-    for n in [base + k for k in (-1, 0, 1, 100)] + [gen.INST_MIN_NS, gen.INST_MAX_NS, 0, DAY, -DAY, -1, 1] + [rng.randint(-10**12, 10**12) for _ in range(3)]:
+    for n in [base + k for k in (-1, 0, 1, 100)] + [gen.INST_MIN_NS, gen.INST_MAX_NS, 0, DAY, -DAY, -1, 1, 18262 * DAY, 5 * DAY + 19 * 3600 * 10**9] + [rng.randint(-10**12, 10**12) for _ in range(3)]:
         if not gen.INST_MIN_NS <= n <= gen.INST_MAX_NS: continue
         items.append((n, n, None, gen.ns_inst(n), "plus_nanoseconds"))
         items.append((n, n, None, Instant.from_unix_time_ticks(n // 100).plus_nanoseconds(n % 100), "ticks+ns"))
+        # the same instant reached through a local date-time and an offset (also offsets that put the instant exactly on a UTC midnight)
+        if gen.INST_MIN_NS + 3 * DAY < n < gen.INST_MAX_NS - 3 * DAY:
+            for off_s in (-18000, 3600, -(n % DAY) // 10**9 if (n % DAY) % 10**9 == 0 and 0 < (n % DAY) // 10**9 <= 64800 else 7200, (DAY - n % DAY) // 10**9 if (n % DAY) % 10**9 == 0 and 0 < (DAY - n % DAY) // 10**9 <= 64800 else -7200):
+                try:
+                    o_ = Offset.from_seconds(off_s)
+                    items.append((n, n, None, gen.ns_inst(n).with_offset(o_).to_instant(), f"via-offset({off_s})"))
+                    items.append((n, n, None, gen.ns_inst(n).in_zone(DateTimeZone.for_offset(o_)).to_instant(), f"via-zone({off_s})"))
+                except Exception:  # noqa: BLE001
+                    pass
     G.append(("Instant", True, items))
     # Offset
     items = []
